@@ -217,3 +217,29 @@ Example ex2_run_result :
   | _ => False
   end.
 Proof. vm_compute. reflexivity. Qed.
+
+(* ---- Concat with a zero-length operand: the two variants of the evaluator (before / after fix 37f3956).
+   x : [N, 0], y : [M, 2], axis 1: as read, x is dropped although Concat would have checked N = M (the replacement accepts
+   bindings the original rejects: Shape/ExtraProofs.v concat_drop_accepts_exactly_refuted); repaired, nothing is dropped.
+   With x : [N, 0] and y : [N, 2] the repaired evaluator drops x and returns Identity(y). *)
+Definition cc_state (dx dy : dim) : state Z :=
+  mkState Z [] [] [] [("x", [dx; DInt 0]); ("y", [dy; DInt 2])] [] 0 [] [].
+Definition cc_node : node := Node "" "Concat" [Some "x"; Some "y"] ["z"] [("axis", AInt 1)] [].
+Example concat_as_read_drops_unchecked_operand :
+  match pe_concat_variant Z (fun _ => DT_INT64) (fun _ => []) (fun z => Some [z]) false (cc_state (DSym "N") (DSym "M")) cc_node with
+  | PRepl _ _ [Node "" "Concat" [Some "y"] ["z"] [("axis", AInt 1)] []] => True
+  | _ => False
+  end.
+Proof. vm_compute. exact I. Qed.
+Example concat_repaired_keeps_unchecked_operand :
+  match pe_concat_variant Z (fun _ => DT_INT64) (fun _ => []) (fun z => Some [z]) true (cc_state (DSym "N") (DSym "M")) cc_node with
+  | PNone _ _ => True
+  | _ => False
+  end.
+Proof. vm_compute. exact I. Qed.
+Example concat_repaired_drops_checked_operand :
+  match pe_concat_variant Z (fun _ => DT_INT64) (fun _ => []) (fun z => Some [z]) true (cc_state (DSym "N") (DSym "N")) cc_node with
+  | PRepl _ _ [Node "" "Identity" [Some "y"] ["z"] [] []] => True
+  | _ => False
+  end.
+Proof. vm_compute. exact I. Qed.
